@@ -138,6 +138,22 @@ def resolve_rules(chk, F):
                     order.append("push")
                 if c.get("name") == "add_symbol" and "frames.top()" in short(c.get("recv")):
                     order.append("add")
+        if not order:
+            # delegation to a sibling callback that opens the scope (`ExpressionBuilder::expr_forall_dynamic_begin(name, temp);`)
+            sib = {"expr_forall_begin", "expr_forall_dynamic_begin", "expr_exists_dynamic_begin", "expr_sum_dynamic_begin",
+                   "expr_foreach_dynamic_begin"} - {fn["name"]}
+            for c in calls(fn["body"]):
+                if c.get("name") in sib:
+                    t = F.resolve_method("UTAP::ExpressionBuilder", c["name"])
+                    if t is not None and t.get("body") is not None:
+                        t = expanded_fn(t, F, stop=("push_frame", "add_symbol"))
+                        for s2 in t["body"].get("s", []):
+                            for c2 in calls(s2):
+                                if c2.get("name") == "push_frame":
+                                    order.append("push")
+                                if c2.get("name") == "add_symbol" and "frames.top()" in short(c2.get("recv")):
+                                    order.append("add")
+                    break
         chk.ob(rid, "binder|%s" % fn["name"], order[:2] == ["push", "add"],
                "%s does not add its binder to the frame it pushes (order of operations: %s)" % (q, order),
                "%s:%s" % (fn["file"], fn["line"]))
@@ -648,6 +664,7 @@ def run_memberscope(chk, F, rid="R-MEMBERSCOPE"):
     fn = F.resolve_method("UTAP::ExpressionBuilder", "expr_dot")
     if fn is None or fn.get("body") is None:
         raise AnalysisBroken("ExpressionBuilder::expr_dot not found")
+    fn = expanded_fn(fn, F, accept=lambda t: bool(t.get("static")) and not t.get("cls"), maxdepth=2)   # member_of(object, id, ..)
     idp = fn["params"][0]["name"]
     own = [c for c in calls(fn["body"]) if c.get("name") in ("find_index_of", "get_index_of") and
            any(x.get("k") == "ref" and x.get("name") == idp for x in walk(c.get("args", [])))]
